@@ -594,9 +594,8 @@ fn decode_lenient(bytes: &[u8], out: &mut Vec<u32>) {
     }
 }
 
-// A stream that can make the decoder hand an invalid scalar value to char::from_u32_unchecked
-// (surrogates, values above 0x10FFFF) is undefined behaviour / a debug abort: the subject of
-// C02, kept out of this property's inputs (such a case is recorded as skipped).
+// Well-shaped sequences that are not scalar values (surrogates, values above 0x10FFFF) are generated:
+// the repaired decoder reports them as errors (Utf8Decoder) / raw bytes (tokenizer), and so does the model.
 
 // ---------- escape sequences ----------
 /// byte ranges of the form ESC [ [0-9:;]* m in a stream
@@ -671,16 +670,70 @@ fn sgr_table(ops: &[Value]) -> String {
             }
         })
         .collect();
-    let mut rows = vec![];
+    let decode_mod = |s: &[u8]| -> Option<surf_n_term::FaceModify> {
+        let mut d = TTYCommandDecoder::new();
+        let mut cur = std::io::Cursor::new(s);
+        match d.decode(&mut cur) {
+            Ok(Some(TerminalCommand::FaceModify(m))) => Some(m),
+            _ => None,
+        }
+    };
+    let mut rows: Vec<String> = vec![];
+    let mut row = |s: &[u8], f: &Face, g: &Face| {
+        let (a, b, c) = face_parts(f);
+        let (x, y, z) = face_parts(g);
+        let r = format!("({}, {}, {})", cbytes(s), face_coq_parts(a, b, c), face_coq_parts(x, y, z));
+        if !rows.contains(&r) {
+            rows.push(r);
+        }
+    };
+    // 1. the pairs (sequence, face before) the program actually goes through, followed in program order:
+    //    a sequence takes effect at its final byte, whatever was done to the parent in between
+    {
+        let mut cur = Face::default();
+        for op in ops {
+            let tty = op["via"].as_str() == Some("tty");
+            let items: Vec<Value> = if op["o"] == "sess" {
+                op["items"].as_array().cloned().unwrap_or_default()
+            } else if op["o"] == "write" && tty {
+                vec![json!({"b": op["chunks"].as_array().map(|a| a.iter().flat_map(vbytes).collect::<Vec<u8>>()).unwrap_or_default()})]
+            } else if op["o"] == "face" {
+                vec![op.clone()]
+            } else {
+                vec![]
+            };
+            let mut buf: Vec<u8> = vec![];
+            for it in items {
+                if it["o"] == "face" {
+                    cur = face_from(&it["face"]);
+                } else if it["b"].is_array() && tty {
+                    for b in vbytes(&it["b"]) {
+                        buf.push(b);
+                        if b == b'm' {
+                            if let Some(start) = buf.iter().rposition(|x| *x == 0x1b) {
+                                let seq = buf[start..].to_vec();
+                                if sgr_seqs(&seq).first() == Some(&seq) {
+                                    if let Some(m) = decode_mod(&seq) {
+                                        let g = m.apply(cur);
+                                        row(&seq, &cur, &g);
+                                        cur = g;
+                                    }
+                                }
+                            }
+                        }
+                    }
+                }
+            }
+        }
+    }
+    // 2. and, as far as a bounded table goes, every sequence on every face reachable from the faces the program sets
     let mut k = 0;
     while k < faces.len() && faces.len() < 120 {
         let f = faces[k];
         for (s, m) in seqs.iter().zip(mods.iter()) {
             if let Some(m) = m {
                 let g = m.apply(f);
-                let (a, b, c) = face_parts(&f);
-                let (x, y, z) = face_parts(&g);
-                rows.push(format!("({}, {}, {})", cbytes(s), face_coq_parts(a, b, c), face_coq_parts(x, y, z)));
+                row(s, &f, &g);
                 if !faces.iter().any(|h| face_parts(h) == face_parts(&g)) {
                     faces.push(g);
                 }
@@ -793,6 +846,11 @@ fn run_w(input: &Value) -> Case {
         format!("multi_chunk={}", multi),
         format!("tty={}", ops.iter().any(|o| o["via"].as_str() == Some("tty"))),
         format!("session={}", ops.iter().any(|o| o["o"] == "sess")),
+        format!("invalid_scalar_bytes={}", ops.iter().any(|o| {
+            let b: Vec<u8> = if o["o"] == "sess" { session_bytes(o) } else { o["chunks"].as_array().map(|a| a.iter().flat_map(vbytes).collect()).unwrap_or_default() };
+            b.windows(2).any(|w| (w[0] == 0xED && w[1] >= 0xA0) || (w[0] == 0xF4 && w[1] >= 0x90) || (0xF5..=0xF7).contains(&w[0]))
+        })),
+        format!("set_cursor={}", ops.iter().any(|o| o["o"] == "cursor")),
         format!("put_text={}", ops.iter().any(|o| o["o"] == "text" || (o["o"] == "sess" && o["items"].as_array().map(|a| a.iter().any(|i| i["o"] == "text")).unwrap_or(false)))),
         format!("glyphs={}", input["glyphs"].as_bool().unwrap_or(true)),
     ];
@@ -856,11 +914,12 @@ fn run_text(defs: &Defs, input: &Value, text: &Text) -> TOut {
     }
     if vh > 0 && vw > 0 {
         if input["chained"].as_bool().unwrap_or(false) {
-            // the same window reached in two steps, with a double transposition in between
+            // the same window reached in three steps: a view, a transposition, a view taken in the transposed
+            // coordinates, and the transposition back (the two transpositions do not cancel syntactically)
             vops.push(VOp::View(Sel::From(pad[0] as i64), Sel::To((pad[1] + vw) as i64)));
             vops.push(VOp::T);
+            vops.push(VOp::View(Sel::From(pad[1] as i64), Sel::To(vh as i64)));
             vops.push(VOp::T);
-            vops.push(VOp::View(Sel::To(vh as i64), Sel::From(pad[1] as i64)));
         } else {
             vops.push(VOp::View(Sel::Rng(pad[0] as i64, (pad[0] + vh) as i64), Sel::Rng(pad[1] as i64, (pad[1] + vw) as i64)));
         }
@@ -958,6 +1017,13 @@ fn run_t(input: &Value) -> Case {
         format!("maxw={}", ct[3].min(13)),
         format!("str_view={}", input["str"].as_bool().unwrap_or(false)),
         format!("area={}", if area == 0 { "0" } else if area < 4 { "1-3" } else { "4+" }),
+        format!("chained_view={}", input["chained"].as_bool().unwrap_or(false) && area > 0),
+        format!("layout_position={}", if input["pr"].as_u64().unwrap_or(0) > 0 || input["pc"].as_u64().unwrap_or(0) > 0 { "nonzero" } else { "origin" }),
+        format!("clipped={}", input["clh"].as_u64().unwrap_or(0) > 0 || input["clw"].as_u64().unwrap_or(0) > 0),
+        // the view is exactly the reported rectangle, and the constraint is exactly the measured height
+        format!("exact_fit_view={}", ["eh", "ew", "clh", "clw"].iter().all(|k| input[*k].as_u64().unwrap_or(0) == 0) && area > 0),
+        format!("exact_fit_height={}", match &out { Some(o) => o.nat_h == ct[2] && o.nat_h > 0, None => false }),
+        format!("height_cut={}", match &out { Some(o) => o.nat_h > ct[2], None => false }),
     ];
     Case { coq, json: j, tags, nontrivial }
 }
@@ -1009,8 +1075,8 @@ fn jdoc(node: &Value) -> Value {
 /// not C09's subject)
 fn jcoq(node: &Value) -> String {
     match node["t"].as_str().unwrap_or("") {
-        "s" => format!("(JStr {})", clist(vusizes(&node["s"]).iter().map(|c| c.to_string()))),
-        "a" => format!("(JArr {})", clist(node["items"].as_array().cloned().unwrap_or_default().iter().map(jcoq))),
+        "s" => format!("(TxStr {})", clist(vusizes(&node["s"]).iter().map(|c| c.to_string()))),
+        "a" => format!("(TxArr {})", clist(node["items"].as_array().cloned().unwrap_or_default().iter().map(jcoq))),
         _ => {
             let face = if node["face"].is_object() {
                 let f: Face = jface_str(&node["face"]).parse().unwrap_or_default();
@@ -1025,17 +1091,19 @@ fn jcoq(node: &Value) -> String {
             let body = if node["glyph"].is_object() {
                 let g = &node["glyph"];
                 format!(
-                    "(JBGlyph (KGlyph 999 {} {} {}))",
+                    "(JBGlyph (KGlyph 999 {} {} {}) {})",
                     cnat(g["h"].as_u64().unwrap_or(1) as usize),
                     cnat(g["w"].as_u64().unwrap_or(1) as usize),
-                    clist(vusizes(&g["fb"]).iter().map(|c| c.to_string()))
+                    clist(vusizes(&g["fb"]).iter().map(|c| c.to_string())),
+                    // the "text" such an object may carry reaches model and predicate as part of the document
+                    if node["text"].is_null() { "None".to_string() } else { format!("(Some {})", jcoq(&node["text"])) }
                 )
             } else if !node["text"].is_null() {
                 format!("(JBText {})", jcoq(&node["text"]))
             } else {
                 "JBNone".to_string()
             };
-            format!("(JObj {} {} {})", face, wr, body)
+            format!("(TxObj {} {} {})", face, wr, body)
         }
     }
 }
@@ -1068,7 +1136,14 @@ fn run_j(input: &Value) -> Case {
         }
     }
     let d = depth(&input["doc"]);
-    let tags = vec!["kind=json_text".to_string(), format!("json_depth={}", d.min(4)), format!("json_cells={}", if ncells == 0 { "0" } else if ncells < 4 { "1-3" } else { "4+" })];
+    fn glyph_with_text(n: &Value) -> bool {
+        match n["t"].as_str().unwrap_or("") {
+            "s" => false,
+            "a" => n["items"].as_array().map(|a| a.iter().any(glyph_with_text)).unwrap_or(false),
+            _ => (n["glyph"].is_object() && !n["text"].is_null()) || (!n["text"].is_null() && glyph_with_text(&n["text"])),
+        }
+    }
+    let tags = vec!["kind=json_text".to_string(), format!("json_glyph_with_text={}", glyph_with_text(&input["doc"])), format!("json_depth={}", d.min(4)), format!("json_cells={}", if ncells == 0 { "0" } else if ncells < 4 { "1-3" } else { "4+" })];
     Case { coq: format!("CJ {} {}", jcoq(&input["doc"]), coq_res), json: j, tags, nontrivial: d >= 2 && ncells >= 2 }
 }
 
